@@ -36,7 +36,9 @@ type Case struct {
 var rootPool = []string{"", "src/main/java/", "core/src/main/java/", "src/", "test/", "tests/unit/", "testdata/", "src/test/javax/", "src/testing/java/",
 	"my project/", "проект/", "a.b/", "x/y/z/w/v/u/t/s/r/q/", "Test.java.d/sources/", "legacy.java/"}
 
-var dirNames = []string{"", "proj", "my proj", "src", "Tests", "проект", "test-data", "old.java"}
+// (eighth seed batch: the project may lie below a directory whose name starts with a dot - a CI workspace under
+// ~/.jenkins, a checkout under .ws - or be such a directory itself; what is hidden is decided inside the project)
+var dirNames = []string{"", "proj", "my proj", "src", "Tests", "проект", "test-data", "old.java", ".ws/proj", ".jenkins/workspace/shop", ".proj", "a/.hidden/b"}
 
 // extraPool: what else lies in a project; the .gitignore files match none of the generated paths.
 var extraPool = []jgen.File{
